@@ -527,6 +527,20 @@ func init() {
 			}
 			corpus = append(corpus, []*TNode{deep, T("NOTE", "after", "")})
 		}
+		// wide nodes and wide documents: more children than any fixed-size bit set or small buffer
+		for _, w := range []int{8, 9, 16, 17, 32, 33, 64, 65, 128, 129, 257, c.N(1025, 5000)} {
+			wide := T("INDI", "", "I1")
+			var roots []*TNode
+			for i := 0; i < w; i++ {
+				k := T("NOTE", "n"+strconv.Itoa(i%7), "")
+				if i%5 == 0 {
+					k.Kids = []*TNode{T("CONT", "c", "")}
+				}
+				wide.Kids = append(wide.Kids, k)
+				roots = append(roots, T("NOTE", "r"+strconv.Itoa(i%3), "N"+strconv.Itoa(i)))
+			}
+			corpus = append(corpus, []*TNode{wide}, append(roots, wide))
+		}
 		// very long values: the property puts no limit on string length
 		for _, n := range []int{4095, 4096, 65535, 65536, 70000, c.N(200000, 2000000)} {
 			corpus = append(corpus, []*TNode{T("HEAD", "", ""), T("NOTE", strings.Repeat("x", n-1)+"y", "N1", T("CONT", strings.Repeat("z ", n/2)+"w", ""))})
